@@ -32,8 +32,8 @@ RULE = (
 TOLERANCES = {"everything": "bitwise / exact equality (OpenCV's RNG re-seeded before each colour-correction evaluation)"}
 ASSUMPTIONS = ["files are written to a per-run temporary directory that is removed afterwards", "lossless formats: PNG (8 bit) and TIFF (16 bit), as documented in OpticalImage.write"]
 FLOORS = {
-    "quick": {"files_16bit_read_as_list": 4, "files_read_in_given_order": 16, "write_with_compression_option": 15, "npz_roundtrip": 250, "bytes_roundtrip": 150, "optical_write_read": 60, "correction_roundtrip": 150, "estimator_regions_compared": 100, "correction_path_reused": 200, "caller_config_edited_after_construction": 40, "curvature_crop_points_typed": 6, "curvature_resize_factor": 20, "curvature_interpolation_order": 20, "optical_image_converted_before_saving": 2, "date_set_after_construction": 5},
-    "thorough": {"files_16bit_read_as_list": 40, "files_read_in_given_order": 160, "write_with_compression_option": 200, "npz_roundtrip": 3000, "bytes_roundtrip": 1800, "optical_write_read": 700, "correction_roundtrip": 1700, "estimator_regions_compared": 1000, "correction_path_reused": 2000, "caller_config_edited_after_construction": 400, "curvature_crop_points_typed": 60, "curvature_resize_factor": 200, "curvature_interpolation_order": 200, "optical_image_converted_before_saving": 50, "date_set_after_construction": 100},
+    "quick": {"optical_written_again_after_reading": 50, "files_16bit_read_as_list": 4, "files_read_in_given_order": 16, "write_with_compression_option": 15, "npz_roundtrip": 250, "bytes_roundtrip": 150, "optical_write_read": 60, "correction_roundtrip": 150, "estimator_regions_compared": 100, "correction_path_reused": 200, "caller_config_edited_after_construction": 40, "curvature_crop_points_typed": 6, "curvature_resize_factor": 20, "curvature_interpolation_order": 20, "optical_image_converted_before_saving": 2, "date_set_after_construction": 5},
+    "thorough": {"optical_written_again_after_reading": 600, "files_16bit_read_as_list": 40, "files_read_in_given_order": 160, "write_with_compression_option": 200, "npz_roundtrip": 3000, "bytes_roundtrip": 1800, "optical_write_read": 700, "correction_roundtrip": 1700, "estimator_regions_compared": 1000, "correction_path_reused": 2000, "caller_config_edited_after_construction": 400, "curvature_crop_points_typed": 60, "curvature_resize_factor": 200, "curvature_interpolation_order": 200, "optical_image_converted_before_saving": 50, "date_set_after_construction": 100},
 }
 SHARD_TIMEOUT = {"quick": 1500, "thorough": 7200}
 
@@ -193,6 +193,18 @@ def run_shard(spec, R):
         R.check(isinstance(back, darsia.OpticalImage) and back.color_space == "RGB" and back.img.shape == exp.shape and np.array_equal(back.img, exp), "optical_write_read",
                 lambda: {**case, "max_diff": float(np.max(np.abs(back.img - exp))) if back.img.shape == exp.shape else "shape"}, group=f"{np.dtype(depth).name}/{cspace}")
         R.sig(["write", np.dtype(depth).name, cspace, list(shape)], True, cls=f"write/{np.dtype(depth).name}/{cspace}")
+        # second generation: the image that was read back (float data, bit depth remembered) is written and read again
+        path2 = tmp / f"w{n}_again{suffix}"
+        with quiet():
+            ok, _ = R.guarded("write", lambda: back.write(path2))
+            if ok:
+                ok, back2 = R.guarded("imread_optical", lambda: darsia.imread(path2, dimensions=[1.0, 2.0]))
+        if ok:
+            R.check(back2.img.shape == exp.shape and np.array_equal(back2.img, exp), "optical_write_read",
+                    lambda: {**case, "generation": 2, "max_diff": float(np.max(np.abs(back2.img - exp))) if back2.img.shape == exp.shape else "shape"}, group=f"{np.dtype(depth).name}/{cspace}/second_generation")
+            R.count("optical_written_again_after_reading")
+        if path2.exists():
+            os.remove(path2)
         os.remove(path)
 
     # ============================ several written images read back as one series: slice k carries the colours of the
